@@ -5,6 +5,7 @@ import (
 	"errors"
 	"fmt"
 	"runtime"
+	"sync"
 	"sync/atomic"
 	"testing"
 	"testing/synctest"
@@ -70,77 +71,79 @@ type ReqState struct {
 	ComboKey string
 	data     any
 
-	Started    bool
-	Skipped    bool
-	Invoked    bool
-	InvokeStep int64
-	InvokeVT   time.Duration
-	AdmitStep  int64 // step in which the call got past admission (-1)
-	Enqueued   bool
-	EnqStep    int64
-	EnqVT      time.Duration
-	Returned   bool
-	ReturnStep int64
-	ReturnVT   time.Duration
-	Err        error
+	Started        bool
+	Skipped        bool
+	Invoked        bool
+	InvokeStep     int64
+	InvokeVT       time.Duration
+	AdmitStep      int64 // step in which the call got past admission (-1)
+	Enqueued       bool
+	EnqStep        int64
+	EnqVT          time.Duration
+	Returned       bool
+	ReturnStep     int64
+	ReturnVT       time.Duration
+	Err            error
 	CtxErrAtReturn error
 }
 
 type ExportState struct {
-	ID         int
-	InvokeStep int64
-	InvokeVT   time.Duration
-	Returned   bool
-	ReturnStep int64
-	ReturnVT   time.Duration
-	Items      []ItemObs
-	Empties    int
-	Err        error // what the simulated consumer returned
-	Failure    *exportErr
-	CtxErr     bool // returned its context's error
-	Marker     int  // caller marker visible in the export context (-1 none)
-	MD         map[string][]string
+	ID          int
+	InvokeStep  int64
+	InvokeVT    time.Duration
+	Returned    bool
+	ReturnStep  int64
+	ReturnVT    time.Duration
+	Items       []ItemObs
+	Empties     int
+	Err         error // what the simulated consumer returned
+	Failure     *exportErr
+	CtxErr      bool // returned its context's error
+	Marker      int  // caller marker visible in the export context (-1 none)
+	MD          map[string][]string
 	DoneAtEntry bool
-	SpanID     trace.SpanID
-	Latency    time.Duration
-	Task       string
+	SpanID      trace.SpanID
+	Latency     time.Duration
+	Task        string
 }
 
 // Harness is one simulated run.
 type Harness struct {
-	t     *testing.T
-	tape  *core.Tape
-	opts  core.RunOpts
-	sc    *Scenario
-	s     *Sim
-	race  bool
-	proc  processorAPI
+	t      *testing.T
+	tape   *core.Tape
+	opts   core.RunOpts
+	sc     *Scenario
+	s      *Sim
+	race   bool
+	proc   processorAPI
 	tracer trace.Tracer
-	rec   *tracetest.SpanRecorder
+	rec    *tracetest.SpanRecorder
 
-	reqs     []*ReqState
-	ctxs     []*CtxState
-	exports  []*ExportState
-	ownerOf  map[int64]*ReqState // vid -> request
-	expCount map[int64]int
-	inflight map[string]int // per combination
+	reqs        []*ReqState
+	ctxs        []*CtxState
+	exports     []*ExportState
+	ownerOf     map[int64]*ReqState // vid -> request
+	expCount    map[int64]int
+	inflight    map[string]int // per combination
 	inflightAll int
 
-	callersLeft     int
-	shutdownStarted bool
-	ShutdownInvoked bool
-	ShutdownReturned bool
+	callersLeft                            int
+	shutdownStarted                        bool
+	ShutdownInvoked                        bool
+	ShutdownReturned                       bool
 	ShutdownInvokeStep, ShutdownReturnStep int64
-	ShutdownInvokeVT, ShutdownReturnVT time.Duration
-	progress atomic.Int64
-	ticks    int
+	ShutdownInvokeVT, ShutdownReturnVT     time.Duration
+	progress                               atomic.Int64
+	ticks                                  int
 
-	seen   map[string]bool
-	viol   []core.Violation
-	faults map[string]int
-	probes map[string]int
-	end    schedEnd
-	endVT  time.Duration // virtual time at the end of the run
+	seen       map[string]bool
+	seenLimbo  bool
+	async      sync.WaitGroup // goroutines of the simulated downstream that keep working on data it owns
+	viol       []core.Violation
+	faults     map[string]int
+	probes     map[string]int
+	end        schedEnd
+	endVT      time.Duration // virtual time at the end of the run
 	maxLatency time.Duration
 }
 
@@ -155,14 +158,18 @@ type tracesProc struct {
 	c consumer.Traces
 }
 
-func (p tracesProc) consume(ctx context.Context, d any) error { return p.c.ConsumeTraces(ctx, d.(ptrace.Traces)) }
+func (p tracesProc) consume(ctx context.Context, d any) error {
+	return p.c.ConsumeTraces(ctx, d.(ptrace.Traces))
+}
 
 type logsProc struct {
 	component.Component
 	c consumer.Logs
 }
 
-func (p logsProc) consume(ctx context.Context, d any) error { return p.c.ConsumeLogs(ctx, d.(plog.Logs)) }
+func (p logsProc) consume(ctx context.Context, d any) error {
+	return p.c.ConsumeLogs(ctx, d.(plog.Logs))
+}
 
 type metricsProc struct {
 	component.Component
@@ -251,21 +258,21 @@ func (h *Harness) setup() error {
 	ctx := context.Background()
 	switch sc.Signal {
 	case "traces":
-		next, _ := consumer.NewTraces(func(ctx context.Context, td ptrace.Traces) error { return h.mockConsume(ctx, td) })
+		next, _ := consumer.NewTraces(func(ctx context.Context, td ptrace.Traces) error { return h.mockConsume(ctx, td) }, consumer.WithCapabilities(consumer.Capabilities{MutatesData: true}))
 		p, err := f.CreateTraces(ctx, set, cfg, next)
 		if err != nil {
 			return err
 		}
 		h.proc = tracesProc{p, p}
 	case "logs":
-		next, _ := consumer.NewLogs(func(ctx context.Context, ld plog.Logs) error { return h.mockConsume(ctx, ld) })
+		next, _ := consumer.NewLogs(func(ctx context.Context, ld plog.Logs) error { return h.mockConsume(ctx, ld) }, consumer.WithCapabilities(consumer.Capabilities{MutatesData: true}))
 		p, err := f.CreateLogs(ctx, set, cfg, next)
 		if err != nil {
 			return err
 		}
 		h.proc = logsProc{p, p}
 	default:
-		next, _ := consumer.NewMetrics(func(ctx context.Context, md pmetric.Metrics) error { return h.mockConsume(ctx, md) })
+		next, _ := consumer.NewMetrics(func(ctx context.Context, md pmetric.Metrics) error { return h.mockConsume(ctx, md) }, consumer.WithCapabilities(consumer.Capabilities{MutatesData: true}))
 		p, err := f.CreateMetrics(ctx, set, cfg, next)
 		if err != nil {
 			return err
@@ -424,6 +431,23 @@ func (h *Harness) mockConsume(ctx context.Context, data any) error {
 			ret = consumererror.NewPermanent(ex.Failure)
 		}
 	}
+	// The next consumer owns the data from the moment it is called: a
+	// downstream that keeps working on it (queueing exporter, another batch
+	// processor with early_return) may move it away during the call or from a
+	// goroutine of its own after returning. Legal under the collector's
+	// data-ownership rules; the processor must not touch the request any more.
+	if h.sc.DownstreamKeepsData {
+		if h.race {
+			h.async.Add(1)
+			go func() {
+				defer h.async.Done()
+				time.Sleep(time.Nanosecond)
+				consumeData(data)
+			}()
+		} else {
+			consumeData(data)
+		}
+	}
 	h.lock()
 	if ex.CtxErr {
 		h.fault("export_ctx_cancelled")
@@ -480,7 +504,8 @@ func (h *Harness) callerBody(t *Task, ci int, cp *CallerPlan, mine []*ReqState) 
 			return
 		}
 		h.lock()
-		if h.shutdownStarted {
+		if h.ShutdownReturned {
+			// no method of a component is called after Shutdown has returned
 			r.Skipped = true
 			h.unlock()
 			continue
@@ -496,10 +521,13 @@ func (h *Harness) callerBody(t *Task, ci int, cp *CallerPlan, mine []*ReqState) 
 			return
 		}
 		h.lock()
-		if h.shutdownStarted {
+		if h.ShutdownReturned {
 			r.Skipped = true
 			h.unlock()
 			continue
+		}
+		if h.ShutdownInvoked {
+			h.probe("consume_called_while_shutdown_in_progress")
 		}
 		r.Invoked = true
 		r.InvokeStep, r.InvokeVT = h.stepNow(), h.vt()
@@ -635,7 +663,15 @@ func (h *Harness) run() {
 		if h.sc.ShutdownNotBefore < 0 {
 			return false
 		}
-		return s.step.Load() >= int64(h.sc.ShutdownNotBefore) && !limbo()
+		// Shutdown may be called at any moment, also while Consume calls are
+		// in progress (between their invocation and the enqueue)
+		if s.step.Load() >= int64(h.sc.ShutdownNotBefore) {
+			if limbo() {
+				h.seenLimbo = true
+			}
+			return true
+		}
+		return false
 	}
 	s.Go("shutdown", "shutdown", sdGuard, func(t *Task) {
 		h.lock()
@@ -644,6 +680,12 @@ func (h *Harness) run() {
 		h.ShutdownInvokeStep, h.ShutdownInvokeVT = h.stepNow(), h.vt()
 		if h.callersLeft > 0 {
 			h.fault("shutdown_while_callers_active")
+		}
+		for _, r := range h.reqs {
+			if r.Invoked && !r.Enqueued && !r.Returned {
+				h.fault("shutdown_while_a_consume_call_is_in_progress")
+				break
+			}
 		}
 		s.logf("  [step %d vt %v] Shutdown invoked (%d callers still active)", h.ShutdownInvokeStep, h.ShutdownInvokeVT, h.callersLeft)
 		h.unlock()
@@ -702,4 +744,17 @@ func (h *Harness) run() {
 	h.finalOracles()
 	h.endVT = h.vt()
 	h.unlock()
+}
+
+// consumeData is what an owner of the data may do with it: move everything
+// out (into its own queue or batch).
+func consumeData(data any) {
+	switch d := data.(type) {
+	case ptrace.Traces:
+		d.ResourceSpans().MoveAndAppendTo(ptrace.NewTraces().ResourceSpans())
+	case plog.Logs:
+		d.ResourceLogs().MoveAndAppendTo(plog.NewLogs().ResourceLogs())
+	case pmetric.Metrics:
+		d.ResourceMetrics().MoveAndAppendTo(pmetric.NewMetrics().ResourceMetrics())
+	}
 }
